@@ -355,8 +355,6 @@ def inline_new_helpers(prog):
                 q = c.name + "." + name
                 if q not in known and not any((k.name + "." + name) in known for k in prog.mro(c.name)):
                     new_methods[(c.name, name)] = f
-    if not new_methods and not new_functions:
-        return {"enabled": True, "new_helpers": [], "inlined_calls": 0}
     total = 0
     hosts = list(prog.all_functions(include_nested=False))
     for host in hosts:
@@ -386,6 +384,44 @@ def inline_new_helpers(prog):
                     return f.node, False
             return None
         total += inline_in_function(host.node, resolver)
+    # nested helpers: a function defined inside a host that is not in the frozen list of the host's local bindings
+    # (known_locals.json) and is only ever called (never passed around) is inlined into the host and its definition dropped
+    try:
+        from .canon import load_locals, scope_bindings
+        ref_locals = load_locals()
+    except Exception:
+        ref_locals = None
+    nested_done = []
+    if ref_locals is not None:
+        for host in prog.all_functions(include_nested=False):
+            key = (host.cls.name + "." + host.name) if host.cls is not None else (host.module.relpath + ":" + host.name)
+            want = ref_locals.get(key)
+            if want is None:
+                continue
+            known_local = {n for n, _ in want}
+            cands = {}
+            for st in host.node.body:
+                if isinstance(st, ast.FunctionDef) and st.name not in known_local and inlinable(st):
+                    uses = [n for n in ast.walk(host.node) if isinstance(n, ast.Name) and n.id == st.name]
+                    calls = [n for n in ast.walk(host.node) if isinstance(n, ast.Call) and isinstance(n.func, ast.Name) and n.func.id == st.name]
+                    inside = [n for n in ast.walk(st) if isinstance(n, ast.Name) and n.id == st.name]
+                    if uses and len(uses) == len(calls) and not inside:
+                        cands[st.name] = st
+            if not cands:
+                continue
+
+            def nested_resolver(call, cands=cands):
+                if isinstance(call.func, ast.Name) and call.func.id in cands:
+                    return cands[call.func.id], False
+                return None
+            got = inline_in_function(host.node, nested_resolver)
+            if got:
+                total += got
+                for nm, st in cands.items():
+                    if not any(isinstance(n, ast.Call) and isinstance(n.func, ast.Name) and n.func.id == nm for n in ast.walk(host.node) if n is not st and not any(n is x for x in ast.walk(st))):
+                        if st in host.node.body:
+                            host.node.body.remove(st)
+                            nested_done.append("%s/%s" % (key, nm))
     # a helper whose every call was inlined is dead code for the analysis: drop it, so that inventories and
     # handler scans see its statements exactly once (in the hosts)
     removed = []
@@ -411,7 +447,7 @@ def inline_new_helpers(prog):
         if not used and name in prog.modules[rel].functions:
             del prog.modules[rel].functions[name]
             removed.append("%s:%s" % (rel, name))
-    return {"enabled": True, "new_helpers": sorted(["%s.%s" % k for k in new_methods] + ["%s:%s" % k for k in new_functions]), "inlined_calls": total, "removed": removed}
+    return {"enabled": True, "new_helpers": sorted(["%s.%s" % k for k in new_methods] + ["%s:%s" % k for k in new_functions] + nested_done), "inlined_calls": total, "removed": removed + nested_done}
 
 
 def write_known_names(prog):
